@@ -20,9 +20,11 @@ macro_rules! dispatch {
     ($id:expr, $f:ident, $($args:expr),*) => {
         match $id {
             "C01" => pbt::$f::<props::c01::C01>($($args),*),
+            "C02" => pbt::$f::<props::c02::C02>($($args),*),
             "C03" => pbt::$f::<props::c03::C03>($($args),*),
             "C04" => pbt::$f::<props::c04::C04>($($args),*),
             "C05" => pbt::$f::<props::c05::C05>($($args),*),
+            "C06" => pbt::$f::<props::c06::C06>($($args),*),
             "C07" => pbt::$f::<props::c07::C07>($($args),*),
             "C09" => pbt::$f::<props::c09::C09>($($args),*),
             "C11" => pbt::$f::<props::c11::C11>($($args),*),
